@@ -112,8 +112,14 @@ def run(ctx):
                                (2, 12), (12, 2), (4, 14), (3, 10), (6, 6), (2, 26), (5, 9), (10, 3)])       # incl. ellipses smaller than a pixel
             s = {'k': 'ellipse', 'cx': rnd.choice([0, 1, 2, 3, 5, 7, U // 2, -3, -21, -U - 5]), 'cy': rnd.choice([0, 1, 3, 6, 5, U // 2, -6, -U // 2 - 1, -2 * U - 3]), 'w': w, 'h': h, 'd': list(rnd.choice(DIRS5)), 'inc': 'absent'}
         fr = geom.Frame(U, 1.0, 0.0, 0.0, rnd.randint(0, 2))
-        reg = geom.build(s, fr)
+        # the include flag does not enter a mask (weights are areas of overlap with the shape itself): the real region carries a false flag
+        # in every third case, the model shape stays as it is
+        reg = geom.build(dict(s, inc=['absent', 'F', '0'][t % 3]), fr)
         try:
+            if t % 2 == 1:
+                # a mask handed out earlier for an equal region belongs to the caller, who may write into it; later masks are unaffected
+                early = geom.build(s, fr).to_mask(mode='exact')
+                np.asarray(early.data)[...] = -7.0
             mask = reg.to_mask(mode='exact')
         except Exception as ex:  # noqa
             ctx.violation(f"C03|raises|{s['k']}|{type(ex).__name__}", f"to_mask('exact') raised {ex!r}", {'shape': s})
